@@ -77,7 +77,9 @@ let () =
    before completion, and - for the file under way when the machine failed or ran out of input -
    the acks / DATA messages (the real pipeline acknowledges and sends ahead of its checks). *)
 
-let ft_hexs l = String.concat "+" (List.map hex_of_bytes l)
+(* names as the harness reads them back from a "Saved ..." message: an empty name (a reply record without a
+   name field) is an empty bullet there, which the reader drops *)
+let ft_hexs l = String.concat "+" (List.map hex_of_bytes (List.filter (fun n -> n <> []) l))
 let ft_istr n = string_of_int (int_of_n n)
 let ft_pairs s = List.filter_map (fun e -> match String.split_on_char '>' e with
     | [a; b] -> Some (bytes_of_hex a, bytes_of_hex b) | _ -> None) (ft_split ';' s)
@@ -195,7 +197,7 @@ let () =
             (match stp.Transfer.rs_phase with
              | Transfer.RpFail | Transfer.RpDone -> "F"
              | Transfer.RpExit -> "D:" ^ ft_hexs stp.Transfer.rs_names   (* the regular end: trz prints ITS names (formatSavedFiles localNames) *)
-             | _ -> "D:" ^ names)                                        (* "remote exit": the text of the client's message *)
+             | _ -> if names = "!" then "F" else "D:" ^ names)          (* "remote exit": the text of the client's message *)
           | _, None -> "F"
         end else (match st.Transfer.rs_phase with
             | Transfer.RpDone -> "D:" ^ ft_hexs st.Transfer.rs_names
@@ -272,6 +274,7 @@ let () =
            | Transfer.SpDone -> "D:" ^ ft_hexs !st.Transfer.ss_names
            | _ -> "F")
         else (match !shown, !st.Transfer.ss_phase with
+            | Some "!", _ -> "F"   (* the text delivered as the client's message is not a "Saved ..." message *)
             | Some names, _ -> "D:" ^ names
             | None, _ -> "F") in
       Printf.sprintf "OUT=%s|END=%s" (String.concat " " toks) fin
